@@ -233,4 +233,13 @@ def r4_same_table(ctx):
         ctx.floor("R4", "ElementWriter helper bodies", found, 10 if "async-tokio" in F.features else 5, config=cfg)
 
 
-RULES = [("R1", r1_escaping), ("R2", r2_attr_literals), ("R3", r3_name_len), ("R4", r4_same_table)]
+def r5_whole_writes(ctx):
+    """what the writer emits reaches the sink completely: sinks are written only through write_all (C13 R5)"""
+    import c13
+    n0 = len(ctx.obs)
+    c13.r5_no_partial_write(ctx)
+    for o in ctx.obs[n0:]:
+        o["site"] = "sink:" + o["site"]
+        o["rule"] = "R5"
+
+RULES = [("R1", r1_escaping), ("R2", r2_attr_literals), ("R3", r3_name_len), ("R4", r4_same_table), ("R5", r5_whole_writes)]
